@@ -70,6 +70,17 @@ var addrs = []addrSpec{
 	{text: "'[ff02::1:2%lo]'", ver: 6, ip: "ff02::1:2", zone: "lo"},
 	{text: "'[ff05::1:3]'", ver: 6, ip: "ff05::1:3"},
 	{text: "'[ff01::1]'", ver: 6, ip: "ff01::1", mcast: true},
+	// ports are decimal numbers: leading zeros do not make them octal ...
+	{text: "192.0.2.1:067", ver: 4, ip: "192.0.2.1", port: 67},
+	{text: "':0547'", any: true, port: 547},
+	{text: "'%lo:068'", any: true, zone: "lo", port: 68},
+	{text: "'[2001:db8::1]:00547'", ver: 6, ip: "2001:db8::1", port: 547},
+	// ... and the prefixed / grouped number spellings of Go source are not ports
+	{text: "192.0.2.1:0x43", reject: true},
+	{text: "':0b1000011'", reject: true},
+	{text: "':0o103'", reject: true},
+	{text: "':6_7'", reject: true},
+	{text: "'[::]:0x223'", reject: true},
 	// garbage: rejected under either protocol
 	{text: "foo", reject: true},
 	{text: "1.2.3.4:http", reject: true},
@@ -326,7 +337,7 @@ func pluginsYAML(its []pluginItem) string {
 }
 
 func run(r *ev.Run) {
-	r.Rule("E3: every document of the grammar {server4, server6, both} x listen {absent, scalar, list of 1-2} over 35 address spellings x interface {absent, present} x plugins section {missing, empty list, scalar, list of 1-3 items over 15 item shapes} loaded through the real config.Load and compared with the statement (plugin names/args in file order; ip/zone/port; wildcard+default port; multicast expansion per host interface; the six rejection clauses); no-panic on everything incl. the 1-deviation closure (replace/insert/delete of YAML-significant characters at every position) of seed documents. Class = document shape/outcome.")
+	r.Rule("E3: every document of the grammar {server4, server6, both} x listen {absent, scalar, list of 1-2} over 44 address spellings (incl. ports with leading zeros = decimal, and 0x/0b/0o/underscore numbers = unparseable) x interface {absent, present} x plugins section {missing, empty list, scalar, list of 1-3 items over 15 item shapes} loaded through the real config.Load and compared with the statement (plugin names/args in file order; ip/zone/port; wildcard+default port; multicast expansion per host interface; the six rejection clauses); no-panic on everything incl. the 1-deviation closure (replace/insert/delete of YAML-significant characters at every position) of seed documents. Class = document shape/outcome.")
 	r.Assume(fmt.Sprintf("multicast expansion checked for this host's interfaces only (%d); out-of-range ports, bare IPv6, v4-mapped addresses, scalar listen with whitespace, bare-string items and default listeners (listen absent) are enumerated but not asserted", len(ifaces)))
 	one := []pluginItem{items[0]}
 	// (1) address spellings, scalar and list form, each protocol
